@@ -284,3 +284,29 @@ Proof.
     as [Lc [Rr [E _]]].
   exists Lc, Rr. exact E.
 Qed.
+
+(** * The hypotheses of the source theorems are satisfiable by non-trivial values *)
+Require Import String.
+Example index_prepare_hyps_satisfiable :
+  let ss := [mkSite "A"%string 1 1; mkSite "B"%string 1 2] in
+  NoDup (labels ss) /\ exists t, index_prepare_source true ss = Done t /\ IndexSize t = 3.
+Proof.
+  cbv zeta. split.
+  - cbn. constructor; [intros [H|[]]; discriminate H|constructor; [intros []|constructor]].
+  - eexists. split; reflexivity.
+Qed.
+
+(** two 2x2 matrices with different sparsity patterns in one block: a = [[.,x],[x,.]], b = [[x,.],[.,x]] *)
+Example chase_hyps_satisfiable :
+  let a := mkcs 2 [0; 1; 2] [1; 0] [tt; tt] in
+  let b := mkcs 2 [0; 1; 2] [0; 1] [tt; tt] in
+  cs_wf a /\ cs_wf b /\ cs_outer a <= cs_outer b /\
+  gf_part_walk_source false a b = WDone (matches_part a b) /\ matches_part a b = [].
+Proof.
+  cbv zeta.
+  assert (Wa : cs_wf (mkcs 2 [0; 1; 2] [1; 0] [tt; tt])) by (apply cs_wf_b_sound; reflexivity).
+  assert (Wb : cs_wf (mkcs 2 [0; 1; 2] [0; 1] [tt; tt])) by (apply cs_wf_b_sound; reflexivity).
+  split; [exact Wa|]. split; [exact Wb|]. split; [cbn; lia|]. split.
+  - apply source_gf_walk_in_bounds; [exact Wa|exact Wb|cbn; lia].
+  - reflexivity.
+Qed.
